@@ -69,11 +69,13 @@ static void exercise(const std::string& cid, const std::string& pre, CommPkg* c,
         { CSRMatrix* r = c->communicate(&R, false); emit_all(cid, pre + "FRQ", rows_str(r, false)); delete r; }
     }
     // reverse exchange of sparse rows: slot j of rank p carries the row {((3c + p) mod 13, p + 1 + j/8), ((3c + p + 5) mod 13, -j)}
-    // of c = colmap[j] (one entry when c is even); the owner of c receives the union of the rows sent for c
+    // (+ (c mod 13, (p+1)/2) when 3 does not divide c) of c = colmap[j] (first entry only when c is even); the owner of c receives
+    // the union of the rows sent for c
     {   CSRMatrix R(m, 13); R.idx1[0] = 0;
         for (int j = 0; j < m; j++) { int cg = colmap[j];
             R.idx2.push_back((3 * cg + g_rank) % 13); R.vals.push_back(g_rank + 1 + 0.125 * j);
             if (cg % 2) { R.idx2.push_back((3 * cg + g_rank + 5) % 13); R.vals.push_back(-1.0 * j); }
+            if (cg % 3) { R.idx2.push_back(cg % 13); R.vals.push_back(0.5 * (g_rank + 1)); }      // a column every contributor of c shares
             R.idx1[j + 1] = (int)R.idx2.size(); }
         R.nnz = (int)R.idx2.size();
         CSRMatrix* r = c->communicate_T(R.idx1, R.idx2, R.vals, n);
